@@ -567,6 +567,20 @@ func (c20) Generate(r *sim.Rand, tier string) *sim.Scenario {
 		allBackprop = true
 	}
 	allRNG := schedMode == 4 && stormBias == sim.ClassRNG // every task calls random constructors / initializers
+	var sameDerived *sim.Step
+	if len(derived) > 0 && r.Bool(0.2) {
+		if e0, bad := newEnv20(sc); bad == "" {
+			id := derived[r.Intn(len(derived))]
+			x := avail{id, e0.shared[id].Shape()}
+			od := genOpts{MaxElems: 60, MaxRank: 5, MaxDim: 4, Client: 0, Weights: map[string]int{"shape": 10, "reshape": 2, "broadcast": 2, "along": 2, "slice": 1, "unary": 0, "scale": 0, "pow": 0, "patch": 0, "concat": 0, "arith": 0, "elmm": 0, "dot": 0, "matmul": 0}}
+			if ps := propose(r, &idAlloc{next: 900000}, []avail{x}, x, &od); len(ps) == 1 {
+				if ps[0].Op == "unsqueeze" && r.Bool(0.5) {
+					ps[0].I = []int{len(x.Shape)} // the trailing position
+				}
+				sameDerived = &ps[0]
+			}
+		}
+	}
 	for tk := 0; tk < ntasks; tk++ {
 		e, bad := newEnv20(sc)
 		if bad != "" {
@@ -620,7 +634,16 @@ func (c20) Generate(r *sim.Rand, tier string) *sim.Scenario {
 			av = append(av, avail{st.Out, t.Shape()})
 		}
 		n := r.Range(3, maxSteps)
-		if len(derived) > 0 && r.Bool(0.4) {
+		if sameDerived != nil {
+			// every task performs the very same shape operation on the same derived
+			// shared tensor: the same code path on the same object from all sides
+			st := *sameDerived
+			st.C, st.Out = tk, ids.New()
+			if res := pool.Apply(st); res.Err == nil && res.T != nil {
+				record(st, res.T, st.In)
+				steps = append(steps, st)
+			}
+		} else if len(derived) > 0 && r.Bool(0.4) {
 			// a shape operation on one of the derived shared tensors
 			id := derived[r.Intn(len(derived))]
 			od := genOpts{MaxElems: 60, MaxRank: 5, MaxDim: 4, Client: tk, Weights: map[string]int{"shape": 8, "reshape": 3, "broadcast": 2, "along": 2, "slice": 1, "unary": 0, "scale": 1, "pow": 0, "patch": 0, "concat": 0, "arith": 1, "elmm": 0, "dot": 0, "matmul": 0}}
@@ -686,6 +709,10 @@ func (c20) Generate(r *sim.Rand, tier string) *sim.Scenario {
 				u := usable()
 				a := u[r.Intn(len(u))]
 				tag, bn := pickBad(r, a.Shape)
+				if r.Bool(0.15) {
+					// failure paths that report from more than one place at once
+					tag = []string{"matmul-batch-both", "bcast-both-fail", "matmul-batch-first"}[r.Intn(3)]
+				}
 				steps = append(steps, sim.Step{C: tk, Op: "bad", In: []int{a.ID}, Tag: tag, N: bn, Out: -1})
 				k++
 			case r.Bool(0.04): // a private result is turned into a fresh leaf (or frozen)
